@@ -148,7 +148,8 @@ pub fn run(ctx: &Ctx) -> Outcome {
                 for (an, a) in &datas {
                     for (bn, b) in &datas {
                         rep.case(|| {
-                            let pieces = [p(bs + 1, Kind::InPlace), p(l - bs - 1, Kind::B2b)];
+                            let cut = (bs + 1).min(l / 2);
+                            let pieces = [p(cut, Kind::InPlace), p(l - cut, Kind::B2b)];
                             let oa = (dec.run)(key, &iv, a, &pieces, &pre)?;
                             let ob = (dec.run)(key, &iv, b, &pieces, &pre)?;
                             let ka: Vec<u8> = oa.out.iter().zip(a).map(|(x, y)| x ^ y).collect();
